@@ -7,6 +7,7 @@ import (
 	"context"
 	"crypto/sha256"
 	"encoding/hex"
+	"encoding/json"
 	"fmt"
 	"go/format"
 	"math/big"
@@ -123,6 +124,147 @@ type tcase struct {
 	Race  bool   `json:"race_binary,omitempty"`
 	Fam   string `json:"family,omitempty"`
 	FS    string `json:"scratch_file_system,omitempty"` // "" = the scratch directory under /tmp; "wide" = the wide-range one (tmpfs)
+	// how the root of the tree is named on the command line, and where the command is started, for the first and for
+	// the second run (zero value = `-path {P}/{R}` started in {P})
+	Spell  spelling `json:"root_spelling"`
+	Spell2 spelling `json:"root_spelling_second_run"`
+}
+
+// ---------- the spelling of the root ----------
+
+// spelling: the -path argument and the working directory of one run, written with placeholders so that a case does not
+// depend on where the scratch directory is:
+//
+//	{P}  the directory that holds the root: absolute, clean, free of symbolic links      {p}  the same without its leading '/'
+//	{R}  the name of the root directory inside {P}
+//	{L}  the name of a symbolic link {P}/{L} -> {R} (made when Link is set)
+//
+// Beside the root, {P} holds the empty directories x1 and cwd1/deep.  The command is started with PWD set to the working
+// directory as spelled (what a shell does), so os.Getwd returns that string.
+type spelling struct {
+	Kind string `json:"kind,omitempty"`
+	Arg  string `json:"path_argument,omitempty"`
+	Cwd  string `json:"working_directory,omitempty"`
+	Link string `json:"symbolic_link_to_root,omitempty"`
+}
+
+func (s spelling) orDefault() spelling {
+	if s.Arg == "" && s.Cwd == "" {
+		return spelling{Kind: "absolute, clean", Arg: "{P}/{R}", Cwd: "{P}"}
+	}
+	return s
+}
+
+// expand: the actual argument and working directory for the root parent/rootName
+func (s spelling) expand(parent, rootName string) (arg, cwd string) {
+	s = s.orDefault()
+	rep := strings.NewReplacer("{P}", parent, "{p}", strings.TrimPrefix(parent, "/"), "{R}", rootName, "{L}", s.Link)
+	return rep.Replace(s.Arg), rep.Replace(s.Cwd)
+}
+
+// storedRoot: what cmd.go Run keeps in Args.Path - an absolute argument verbatim, a relative one through filepath.Abs,
+// which is filepath.Join(os.Getwd(), arg)
+func storedRoot(arg, cwd string) string {
+	if strings.HasPrefix(arg, "/") {
+		return arg
+	}
+	return filepath.Join(cwd, arg)
+}
+
+// uses: the spelling goes through the directory rel of the tree
+func (s spelling) uses(rel string) bool {
+	for _, x := range []string{s.Arg, s.Cwd} {
+		if strings.HasSuffix(x, "{R}/"+rel) || strings.Contains(x, "{R}/"+rel+"/") {
+			return true
+		}
+	}
+	return false
+}
+
+// spellingsOf: every way the harness names the root of a tree whose directories are dirs ("" excluded).  All of them
+// denote the same directory: ".." elements only follow real directories, never a symbolic link.
+func spellingsOf(dirs []string) []spelling {
+	l := []spelling{
+		{Kind: "absolute, clean", Arg: "{P}/{R}", Cwd: "{P}"},
+		{Kind: "absolute, clean", Arg: "{P}/{R}", Cwd: "/"},
+		{Kind: "absolute, trailing slash", Arg: "{P}/{R}/", Cwd: "{P}"},
+		{Kind: "absolute, trailing slash", Arg: "{P}/{R}/", Cwd: "{P}/{R}"},
+		{Kind: "absolute, . element", Arg: "{P}/./{R}", Cwd: "{P}"},
+		{Kind: "absolute, . element", Arg: "{P}/{R}/.", Cwd: "{P}/cwd1"},
+		{Kind: "absolute, .. element", Arg: "{P}/x1/../{R}", Cwd: "{P}"},
+		{Kind: "absolute, .. element", Arg: "{P}/{R}/../{R}", Cwd: "{P}"},
+		{Kind: "absolute, .. element", Arg: "{P}/cwd1/deep/../../{R}", Cwd: "{P}/cwd1/deep"},
+		{Kind: "absolute, doubled slash", Arg: "{P}//{R}", Cwd: "{P}"},
+		{Kind: "absolute, doubled slash", Arg: "{P}/{R}//", Cwd: "{P}"},
+		{Kind: "absolute, doubled slash", Arg: "/{P}/{R}", Cwd: "{P}"},
+		{Kind: "absolute, mixed", Arg: "{P}/./x1/..//{R}/./", Cwd: "{P}"},
+		{Kind: "relative, .", Arg: ".", Cwd: "{P}/{R}"},
+		{Kind: "relative, .", Arg: "./", Cwd: "{P}/{R}"},
+		{Kind: "relative, name", Arg: "{R}", Cwd: "{P}"},
+		{Kind: "relative, name", Arg: "./{R}", Cwd: "{P}"},
+		{Kind: "relative, name", Arg: "{R}/", Cwd: "{P}"},
+		{Kind: "relative, name", Arg: "./{R}/.", Cwd: "{P}"},
+		{Kind: "relative, name", Arg: "{R}//", Cwd: "{P}"},
+		{Kind: "relative, .. first", Arg: "../{R}", Cwd: "{P}/cwd1"},
+		{Kind: "relative, .. first", Arg: "../../{R}/", Cwd: "{P}/cwd1/deep"},
+		{Kind: "relative, .. first", Arg: "../{R}/../{R}", Cwd: "{P}/x1"},
+		{Kind: "relative, .. first", Arg: "../{R}", Cwd: "{P}/{R}"},
+		{Kind: "relative, from /", Arg: "{p}/{R}", Cwd: "/"},
+		{Kind: "symbolic link, absolute", Arg: "{P}/{L}", Cwd: "{P}", Link: "lnk"},
+		{Kind: "symbolic link, absolute", Arg: "{P}/{L}/", Cwd: "{P}", Link: "lnk"},
+		{Kind: "symbolic link, relative", Arg: "{L}", Cwd: "{P}", Link: "lnk"},
+		{Kind: "symbolic link, relative", Arg: "./{L}/", Cwd: "{P}", Link: "lnk"},
+		{Kind: "symbolic link, working directory", Arg: ".", Cwd: "{P}/{L}", Link: "lnk"},
+	}
+	for i, d := range dirs {
+		if i >= 2 {
+			break
+		}
+		up := strings.Repeat("/..", depth(d))
+		l = append(l,
+			spelling{Kind: "absolute, .. element", Arg: "{P}/{R}/" + d + up, Cwd: "{P}"},
+			spelling{Kind: "relative, started inside the tree", Arg: strings.TrimPrefix(up, "/"), Cwd: "{P}/{R}/" + d},
+			spelling{Kind: "relative, started inside the tree", Arg: strings.TrimPrefix(up, "/") + "/../{R}/", Cwd: "{P}/{R}/" + d},
+			spelling{Kind: "absolute, clean", Arg: "{P}/{R}", Cwd: "{P}/{R}/" + d})
+	}
+	return l
+}
+
+// treeDirs: directories of the tree a spelling may go through - the shallowest and the deepest
+func treeDirs(ents []ent) []string {
+	var ds []string
+	for _, e := range ents {
+		if e.Dir {
+			ds = append(ds, e.Path)
+		}
+	}
+	if len(ds) == 0 {
+		return nil
+	}
+	sort.SliceStable(ds, func(i, j int) bool { return depth(ds[i]) < depth(ds[j]) })
+	if len(ds) == 1 || ds[0] == ds[len(ds)-1] {
+		return ds[:1]
+	}
+	return []string{ds[0], ds[len(ds)-1]}
+}
+
+// genSpelling: 30% the clean absolute path started in the parent directory (what the other dimensions were built on),
+// otherwise any spelling of the list
+func genSpelling(r *rng.R, ents []ent) spelling {
+	if r.Intn(100) < 30 {
+		return spelling{}
+	}
+	return rng.Pick(r, spellingsOf(treeDirs(ents)))
+}
+
+// withSpellings gives a case its two spellings: the second run uses the same one half of the time
+func withSpellings(r *rng.R, tc tcase) tcase {
+	tc.Spell = genSpelling(r, tc.Ents)
+	tc.Spell2 = tc.Spell
+	if r.Bool() {
+		tc.Spell2 = genSpelling(r, tc.Ents)
+	}
+	return tc
 }
 
 var rootsOK = []string{"proj", "site", "app1", "my-app", "x.y", "vendors", "v_"}
@@ -496,7 +638,7 @@ func mtimeGrid(anchors []instant, allFlags bool, r *rng.R, fs string) []tcase {
 				if !allFlags && keep != (parity != lazy) { // two of the four flag sets per tree, both values of each flag
 					continue
 				}
-				out = append(out, tcase{Fam: "mtime-grid", Root: "proj", Ents: ents, Keep: keep, Lazy: lazy, W: 1 + r.Intn(16), W2: 1 + r.Intn(16), FS: fs})
+				out = append(out, withSpellings(r, tcase{Fam: "mtime-grid", Root: "proj", Ents: ents, Keep: keep, Lazy: lazy, W: 1 + r.Intn(16), W2: 1 + r.Intn(16), FS: fs}))
 			}
 		}
 	}
@@ -583,6 +725,8 @@ type outcome struct {
 	stderr                     string
 	raceReport                 string
 	walk                       []string
+	events                     map[string]string // root-relative name -> event name as WalkFiles sent it (first run's spelling)
+	arg, cwd, arg2, cwd2       string            // the two spellings, expanded
 	err                        error
 }
 
@@ -594,6 +738,16 @@ func build(scratch string, tc tcase) (string, error) {
 	root := filepath.Join(scratch, tc.Root)
 	if err := os.MkdirAll(root, 0o755); err != nil {
 		return "", err
+	}
+	// what the spellings of the root go through, beside the tree
+	os.MkdirAll(filepath.Join(scratch, "x1"), 0o755)
+	os.MkdirAll(filepath.Join(scratch, "cwd1", "deep"), 0o755)
+	for _, sp := range []spelling{tc.Spell, tc.Spell2} {
+		if sp.Link != "" {
+			if err := os.Symlink(tc.Root, filepath.Join(scratch, sp.Link)); err != nil && !os.IsExist(err) {
+				return "", err
+			}
+		}
 	}
 	// a directory that blocks an output path is given an old modification time once everything is in place
 	// (goFileIsUpToDate looks at it under -lazy; the model has no directory mtimes)
@@ -625,8 +779,9 @@ func build(scratch string, tc tcase) (string, error) {
 	return root, nil
 }
 
-func runCLI(bin, root string, tc tcase, w int) (exit int, stderr string) {
-	args := []string{"generate", "-path", root, "-include-version=false", "-w", strconv.Itoa(w)}
+func runCLI(bin, root string, tc tcase, w int, sp spelling) (exit int, stderr string) {
+	arg, cwd := sp.expand(filepath.Dir(root), filepath.Base(root))
+	args := []string{"generate", "-path", arg, "-include-version=false", "-w", strconv.Itoa(w)}
 	if tc.Keep {
 		args = append(args, "-keep-orphaned-files")
 	}
@@ -636,8 +791,8 @@ func runCLI(bin, root string, tc tcase, w int) (exit int, stderr string) {
 	ctx, cancel := context.WithTimeout(context.Background(), 120*time.Second)
 	defer cancel()
 	cmd := exec.CommandContext(ctx, bin, args...)
-	cmd.Dir = filepath.Dir(root)
-	cmd.Env = append(os.Environ(), "GORACE=halt_on_error=0 exitcode=66", "NO_COLOR=1")
+	cmd.Dir = cwd
+	cmd.Env = append(os.Environ(), "GORACE=halt_on_error=0 exitcode=66", "NO_COLOR=1", "PWD="+cwd)
 	var eb bytes.Buffer
 	cmd.Stderr = &eb
 	err := cmd.Run()
@@ -652,21 +807,23 @@ func runCLI(bin, root string, tc tcase, w int) (exit int, stderr string) {
 	return exit, eb.String()
 }
 
-func walkInProcess(root string) []string {
+// walkInProcess: WalkFiles on the root as the command stores it (see storedRoot).  raw = the event names as sent;
+// rels = the same relative to the cleaned root.
+func walkInProcess(stored string) (rels, raw []string) {
 	ch := make(chan fsnotify.Event)
-	var got []string
 	done := make(chan struct{})
 	go func() {
 		for e := range ch {
-			rel, _ := filepath.Rel(root, e.Name)
-			got = append(got, filepath.ToSlash(rel))
+			raw = append(raw, e.Name)
+			rel, _ := filepath.Rel(filepath.Clean(stored), e.Name)
+			rels = append(rels, filepath.ToSlash(rel))
 		}
 		close(done)
 	}()
-	_ = watcher.WalkFiles(context.Background(), root, watchRe, ch)
+	_ = watcher.WalkFiles(context.Background(), stored, watchRe, ch)
 	close(ch)
 	<-done
-	return got
+	return rels, raw
 }
 
 // wideBase: scratch directory on a file system that holds instants the one under /tmp cannot ("" = none available)
@@ -688,10 +845,17 @@ func execute(scratchBase string, idx int, bin string, tc tcase) (o outcome) {
 		o.err = err
 		return
 	}
-	o.walk = walkInProcess(root)
+	o.arg, o.cwd = tc.Spell.expand(scratch, tc.Root)
+	o.arg2, o.cwd2 = tc.Spell2.expand(scratch, tc.Root)
+	var raw []string
+	o.walk, raw = walkInProcess(storedRoot(o.arg, o.cwd))
+	o.events = map[string]string{}
+	for i, r := range o.walk {
+		o.events[r] = raw[i]
+	}
 	o.start = fromTime(time.Now())
 	var se string
-	o.exit, se = runCLI(bin, root, tc, tc.W)
+	o.exit, se = runCLI(bin, root, tc, tc.W, tc.Spell)
 	o.end = fromTime(time.Now())
 	o.stderr = se
 	if strings.Contains(se, "DATA RACE") {
@@ -720,7 +884,7 @@ func execute(scratchBase string, idx int, bin string, tc tcase) (o outcome) {
 		}
 	}
 	o.start2 = fromTime(time.Now())
-	o.exit2, se = runCLI(bin, root, tc, tc.W2)
+	o.exit2, se = runCLI(bin, root, tc, tc.W2, tc.Spell2)
 	o.end2 = fromTime(time.Now())
 	if strings.Contains(se, "DATA RACE") && o.raceReport == "" {
 		o.raceReport = se
@@ -896,6 +1060,46 @@ type verdict struct {
 	rootSkipped bool
 	o           outcome
 	stages      map[string]int
+	named       []string // templates whose file name (as given to the generator) is compared with the model's
+}
+
+// model requests per case: skip, run, check, run, check, then two per named template
+const nNamed = 3
+const perCase = 5 + 2*nNamed
+
+func nameReq(arg, cwd, rel string) drv.Req {
+	return drv.Req{Fn: "name", Args: [][]byte{[]byte(arg), []byte(cwd), []byte(rel)}}
+}
+
+// nameTargets: up to nNamed templates outside skipped directories whose generated code mentions its file name, the
+// deepest first (ties by path)
+func nameTargets(before []ent, orc map[string]string) []string {
+	var l []string
+	for _, e := range before {
+		if code, ok := orc[e.Path]; ok && !e.Dir && inScope(e.Path) && strings.Contains(code, "FileName: ") {
+			l = append(l, e.Path)
+		}
+	}
+	sort.SliceStable(l, func(i, j int) bool { return depth(l[i]) > depth(l[j]) })
+	if len(l) > nNamed {
+		l = l[:nNamed]
+	}
+	return l
+}
+
+var fileNameRe = regexp.MustCompile("FileName: (`[^`]*`|\"(?:[^\"\\\\]|\\\\.)*\")")
+
+// fileNames: the FileName literals of templ.Error values in generated code, decoded
+func fileNames(code string) []string {
+	var out []string
+	seen := map[string]bool{}
+	for _, m := range fileNameRe.FindAllStringSubmatch(code, -1) {
+		if v, err := strconv.Unquote(m[1]); err == nil && !seen[v] {
+			seen[v] = true
+			out = append(out, v)
+		}
+	}
+	return out
 }
 
 func evalCases(c *core.Ctx, scratch string, bins [2]string, cases []tcase, par int) []verdict {
@@ -922,7 +1126,10 @@ func evalCases(c *core.Ctx, scratch string, bins [2]string, cases []tcase, par i
 		o := outs[i]
 		vs[i].o = o
 		if o.err != nil {
-			reqs = append(reqs, drv.Req{Fn: "skip", Args: [][]byte{[]byte(tc.Root)}}, drv.Req{Fn: "skip"}, drv.Req{Fn: "skip"}, drv.Req{Fn: "skip"}, drv.Req{Fn: "skip"})
+			reqs = append(reqs, drv.Req{Fn: "skip", Args: [][]byte{[]byte(tc.Root)}})
+			for k := 1; k < perCase; k++ {
+				reqs = append(reqs, drv.Req{Fn: "skip"})
+			}
 			continue
 		}
 		before := o.before.list()
@@ -939,6 +1146,15 @@ func evalCases(c *core.Ctx, scratch string, bins [2]string, cases []tcase, par i
 			checkReq(tc.Keep, o.exit != 0, before, o.after.list(), orc),
 			runReq(tc.Root, tc.Keep, tc.Lazy, o.start2, mid, orc2),
 			checkReq(tc.Keep, o.exit2 != 0, mid, o.after2.list(), orc2))
+		// the file name the handler gives the generator, under the first and the second run's spelling of the root
+		vs[i].named = nameTargets(before, orc)
+		for k := 0; k < nNamed; k++ {
+			if k < len(vs[i].named) {
+				reqs = append(reqs, nameReq(o.arg, o.cwd, vs[i].named[k]), nameReq(o.arg2, o.cwd2, vs[i].named[k]))
+			} else {
+				reqs = append(reqs, drv.Req{Fn: "skip"}, drv.Req{Fn: "skip"})
+			}
+		}
 	}
 	res := c.Model(reqs)
 	for i, tc := range cases {
@@ -948,7 +1164,7 @@ func evalCases(c *core.Ctx, scratch string, bins [2]string, cases []tcase, par i
 			v.tie = "harness could not build or read the scratch tree: " + o.err.Error()
 			continue
 		}
-		sk, r1, ck, r2, ck2 := res[5*i], res[5*i+1], res[5*i+2], res[5*i+3], res[5*i+4]
+		sk, r1, ck, r2, ck2 := res[perCase*i], res[perCase*i+1], res[perCase*i+2], res[perCase*i+3], res[perCase*i+4]
 		if len(sk) != 3 || len(ck) != 1 || len(ck2) != 1 {
 			v.tie = "extracted model gave no answer"
 			continue
@@ -1084,6 +1300,9 @@ func shrink(c *core.Ctx, scratch string, bins [2]string, tc tcase, isProp bool, 
 			if !tc.Ents[i].Dir && strings.HasSuffix(filepath.Dir(tc.Ents[i].Path), "_templ.go") {
 				continue // a blocking directory stays non-empty (wf_tree); it goes together with its directory
 			}
+			if tc.Ents[i].Dir && (tc.Spell.uses(tc.Ents[i].Path) || tc.Spell2.uses(tc.Ents[i].Path)) {
+				continue // the spelling of the root goes through this directory
+			}
 			pre := tc.Ents[i].Path + "/"
 			var l []ent
 			for j, e := range tc.Ents {
@@ -1144,7 +1363,7 @@ func buildCLI(race bool) (string, error) {
 }
 
 func Run(c *core.Ctx) {
-	c.Rule = "one evaluation = one directory tree x flag set: the real `templ generate` binary run twice on a scratch copy, before/after trees (path, kind, contents, mtime) and exit status compared with the extracted model and judged by the extracted spec_check; distinct non-trivial = distinct (tree, flags) with at least one template outside skipped directories"
+	c.Rule = "one evaluation = one directory tree x flag set x spelling of the root (-path argument and working directory, for each of the two runs): the real `templ generate` binary run twice on a scratch copy, before/after trees (path, kind, contents, mtime) and exit status compared with the extracted model and judged by the extracted spec_check; distinct non-trivial = distinct (tree, flags, spellings) with at least one template outside skipped directories"
 	c.Trusted = append(c.Trusted,
 		"specification spec/WalkSpec.v (spec_holds; its executable form spec_check is proved sound: C15_spec_check_sound)",
 		"the file system is modelled as a finite map path -> file(contents, mtime) | directory, a modification time being any integer number of nanoseconds relative to the Unix epoch (Z: negative, zero, beyond 64 bits); goroutine scheduling as interleavings of handlers' read and write steps (DESIGN section 10); no symlinks, permissions or I/O errors",
@@ -1153,7 +1372,8 @@ func Run(c *core.Ctx) {
 	c.Assume = append(c.Assume,
 		"generate oracle = parser.ParseString + generator.Generate(WithFileName(relative path)) + format.Source, a function of (relative path, contents) - checked against `templ generate -f` on the file alone",
 		"wf_tree: unique paths, parents are directories, no directory (nor the root) is called *.go or *.templ, under -lazy a _templ.go newer than its .templ outside skipped directories is up to date (no condition on modification times)",
-		"-include-version=false, no -include-timestamp, default watch pattern, non-watch mode, nothing else writes to the tree during the run")
+		"-include-version=false, no -include-timestamp, default watch pattern, non-watch mode, nothing else writes to the tree during the run",
+		"the root as spelled: every spelling names the same directory (\"..\" elements follow real directories only, never a symbolic link); the command is started with PWD = its working directory as spelled, so os.Getwd returns that string; path/filepath on a '/'-separated system")
 	c.Proofs()
 
 	bin, err := buildCLI(false)
@@ -1178,6 +1398,7 @@ func Run(c *core.Ctx) {
 	par := 8
 
 	skipSweep(c)
+	pathContract(c)
 
 	// the time dimension: which of the instants of interest the scratch file system stores exactly; a second scratch
 	// directory on a memory file system when that one holds instants the first cannot (ext4: 1901..2446; tmpfs: all)
@@ -1217,6 +1438,15 @@ func Run(c *core.Ctx) {
 			cases = append(cases, tcase{Fam: "fixed", Root: t.Root, Ents: t.Ents, Keep: f&1 == 1, Lazy: f&2 == 2, W: 1 + c.Rng.Intn(16), W2: 1 + c.Rng.Intn(16)})
 		}
 	}
+	// every spelling of the root x small nested trees (first run), the second run under another spelling
+	for ti, t := range spellingTrees(base) {
+		sps := spellingsOf(treeDirs(t.Ents))
+		for si, sp := range sps {
+			f := (si + ti) % 4
+			cases = append(cases, tcase{Fam: "root-spelling", Root: t.Root, Ents: t.Ents, Keep: f&1 == 1, Lazy: f&2 == 2, W: 1 + c.Rng.Intn(16), W2: 1 + c.Rng.Intn(16),
+				Spell: sp, Spell2: sps[(si*7+3+ti)%len(sps)]})
+		}
+	}
 	cases = append(cases, mtimeGrid(held, !c.Quick(), c.Rng, "")...)
 	if wideBase != "" {
 		cases = append(cases, mtimeGrid(wideOnly, !c.Quick(), c.Rng, "wide")...)
@@ -1224,7 +1454,7 @@ func Run(c *core.Ctx) {
 	nExh := 0
 	for _, t := range exhaustiveTrees(base, !c.Quick()) {
 		for f := 0; f < 4; f++ {
-			cases = append(cases, tcase{Fam: "exhaustive-small", Root: t.Root, Ents: t.Ents, Keep: f&1 == 1, Lazy: f&2 == 2, W: 1 + c.Rng.Intn(16), W2: 1 + c.Rng.Intn(16)})
+			cases = append(cases, withSpellings(c.Rng, tcase{Fam: "exhaustive-small", Root: t.Root, Ents: t.Ents, Keep: f&1 == 1, Lazy: f&2 == 2, W: 1 + c.Rng.Intn(16), W2: 1 + c.Rng.Intn(16)}))
 			nExh++
 		}
 	}
@@ -1237,7 +1467,7 @@ func Run(c *core.Ctx) {
 		root, ents := genTree(c.Rng, base, pool)
 		ws := []int{1, 16, 2 + c.Rng.Intn(14), 1 + c.Rng.Intn(16)}
 		for f := 0; f < 4; f++ {
-			cases = append(cases, tcase{Fam: "random", Root: root, Ents: ents, Keep: f&1 == 1, Lazy: f&2 == 2, W: ws[(f+i)%4], W2: 1 + c.Rng.Intn(16), Race: !c.Quick() && (i%4 == 0)})
+			cases = append(cases, withSpellings(c.Rng, tcase{Fam: "random", Root: root, Ents: ents, Keep: f&1 == 1, Lazy: f&2 == 2, W: ws[(f+i)%4], W2: 1 + c.Rng.Intn(16), Race: !c.Quick() && (i%4 == 0)}))
 		}
 	}
 	// random trees on the wide-range scratch file system: the whole list of instants, year 1 and year 9999 included
@@ -1246,7 +1476,7 @@ func Run(c *core.Ctx) {
 		for i := 0; i < nWide; i++ {
 			root, ents := genTree(c.Rng, base, widePool)
 			f := i % 4
-			cases = append(cases, tcase{Fam: "random-wide-fs", Root: root, Ents: ents, Keep: f&1 == 1, Lazy: f&2 == 2, W: 1 + c.Rng.Intn(16), W2: 1 + c.Rng.Intn(16), FS: "wide"})
+			cases = append(cases, withSpellings(c.Rng, tcase{Fam: "random-wide-fs", Root: root, Ents: ents, Keep: f&1 == 1, Lazy: f&2 == 2, W: 1 + c.Rng.Intn(16), W2: 1 + c.Rng.Intn(16), FS: "wide"}))
 		}
 	}
 	// write failures early in walk order, many files still pending, w = 1 and w > 1
@@ -1254,7 +1484,7 @@ func Run(c *core.Ctx) {
 	for i := 0; i < nBlocked; i++ {
 		ents := blockedEarlyTree(c.Rng, base)
 		for f := 0; f < 4; f++ {
-			cases = append(cases, tcase{Fam: "blocked-output-early", Root: "proj", Ents: ents, Keep: f&1 == 1, Lazy: f&2 == 2, W: []int{1, 16, 4, 2}[(f+i)%4], W2: 1 + c.Rng.Intn(16), Race: !c.Quick() && (i%4 == 0)})
+			cases = append(cases, withSpellings(c.Rng, tcase{Fam: "blocked-output-early", Root: "proj", Ents: ents, Keep: f&1 == 1, Lazy: f&2 == 2, W: []int{1, 16, 4, 2}[(f+i)%4], W2: 1 + c.Rng.Intn(16), Race: !c.Quick() && (i%4 == 0)}))
 		}
 	}
 	// two-step histories: run, edit templates (shorter / longer / broken / deleted), run again
@@ -1266,12 +1496,28 @@ func Run(c *core.Ctx) {
 			continue
 		}
 		for f := 0; f < 4; f++ {
-			cases = append(cases, tcase{Fam: "history-random", Root: root, Ents: ents, Edits: eds, Keep: f&1 == 1, Lazy: f&2 == 2, W: 1 + c.Rng.Intn(16), W2: 1 + c.Rng.Intn(16), Race: !c.Quick() && (i%4 == 0)})
+			cases = append(cases, withSpellings(c.Rng, tcase{Fam: "history-random", Root: root, Ents: ents, Edits: eds, Keep: f&1 == 1, Lazy: f&2 == 2, W: 1 + c.Rng.Intn(16), W2: 1 + c.Rng.Intn(16), Race: !c.Quick() && (i%4 == 0)}))
 		}
 	}
 	for _, t := range historyFixed(base) {
 		for f := 0; f < 4; f++ {
 			cases = append(cases, tcase{Fam: "history-fixed", Root: t.Root, Ents: t.Ents, Edits: t.Edits, Keep: f&1 == 1, Lazy: f&2 == 2, W: 1 + c.Rng.Intn(16), W2: 1 + c.Rng.Intn(16)})
+		}
+	}
+	if c.Replay != "" { // the failing inputs of a replay file, nothing else
+		var doc struct {
+			Failures []struct {
+				Input tcase `json:"input"`
+			} `json:"failures"`
+		}
+		b, err := os.ReadFile(c.Replay)
+		if err == nil {
+			err = json.Unmarshal(b, &doc)
+		}
+		c.Oblige("correspondence", "replay file readable", err == nil, fmt.Sprint(err))
+		cases = nil
+		for _, f := range doc.Failures {
+			cases = append(cases, f.Input)
 		}
 	}
 	var vs []verdict
@@ -1299,7 +1545,7 @@ func Run(c *core.Ctx) {
 		key := ""
 		if nInScope > 0 {
 			h := sha256.New()
-			fmt.Fprintf(h, "%s|%v|%v|", tc.Root, tc.Keep, tc.Lazy)
+			fmt.Fprintf(h, "%s|%v|%v|%v|%v|", tc.Root, tc.Keep, tc.Lazy, tc.Spell.orDefault(), tc.Spell2.orDefault())
 			for _, e := range tc.Ents {
 				fmt.Fprintf(h, "%s|%v|%s|%s|", e.Path, e.Dir, e.Content, e.Mtime)
 			}
@@ -1384,8 +1630,8 @@ func Run(c *core.Ctx) {
 			}
 		}
 	}
-	c.Oblige("correspondence", "tree: extracted model = real CLI (events in WalkFiles order, exit status, every path's kind/contents/mtime after the first and the second run) on all generated trees x flags x worker counts", tieOK, "")
-	c.Oblige("correspondence", "tree: extracted spec_check holds of the CLI's own before/after trees and exit status, and a second run changes no contents (well-formed trees, skipped-looking root names included)", propOK, "")
+	c.Oblige("correspondence", "tree: extracted model = real CLI (events in WalkFiles order, exit status, every path's kind/contents/mtime after the first and the second run; model name_given = the FileName literal in the command's generated code, event_name = the name WalkFiles sends, clean root = filepath.Clean of the stored root, for the spelling of each run) on all generated trees x flags x worker counts x spellings", tieOK, "")
+	c.Oblige("correspondence", "tree: extracted spec_check (oracle = single-file generation under the ROOT-RELATIVE slash name) holds of the CLI's own before/after trees and exit status, and a second run changes no contents - whatever the spelling of the root in either run: absolute clean / trailing slash / . / .. / doubled slashes, relative from the parent, the root itself, a directory of the tree, another directory or /, through a symbolic link (well-formed trees, skipped-looking root names included)", propOK, "")
 	if !c.Quick() {
 		c.Oblige("side-condition", "no data race reported by the race-instrumented binary", raceOK, "")
 	}
@@ -1449,6 +1695,29 @@ func hist(c *core.Ctx, tc tcase, v verdict) {
 		}
 	}
 	c.Hist(fmt.Sprintf("flags: keep=%v lazy=%v", tc.Keep, tc.Lazy))
+	// the spelling of the root
+	sp, sp2 := tc.Spell.orDefault(), tc.Spell2.orDefault()
+	c.Hist("root spelled: " + sp.Kind)
+	if sp2 == sp {
+		c.Hist("second run: root spelled as in the first")
+	} else {
+		c.Hist("second run: root spelled differently (" + sp2.Kind + ")")
+	}
+	switch {
+	case sp.Cwd == "{P}":
+		c.Hist("started in: the directory holding the root")
+	case sp.Cwd == "/":
+		c.Hist("started in: /")
+	case sp.Cwd == "{P}/{R}" || sp.Cwd == "{P}/{L}":
+		c.Hist("started in: the root itself")
+	case strings.HasPrefix(sp.Cwd, "{P}/{R}/"):
+		c.Hist("started in: a directory of the tree")
+	default:
+		c.Hist("started in: another directory beside the root")
+	}
+	if len(v.named) > 0 {
+		c.Hist(fmt.Sprintf("file name given to the generator compared for a template at depth %d", depth(v.named[0])-1))
+	}
 	// the time dimension, from the times actually on disk before the run
 	if tc.FS == "wide" && wideBase != "" {
 		c.Hist("scratch file system: wide range (tmpfs)")
@@ -1648,6 +1917,97 @@ func exhaustiveTrees(base int64, all bool) []fixed {
 type fixed struct {
 	Root string
 	Ents []ent
+}
+
+// spellingTrees: small trees with templates at depth 0..3, with and without expressions (generated code mentions the
+// template's file name only for expressions), a skipped directory, an orphan and a file that is not a template.
+func spellingTrees(base int64) []fixed {
+	expr := "package p\n\ntempl T(s string) {\n\t<p>{ s }</p>\n}\n"
+	attr := "package p\n\ntempl E(name string) {\n\t<input value={ name }/>\n}\n"
+	plain := "package p\n\ntempl S() {\n\t<p>static</p>\n}\n"
+	t := func(s int) mtime { return ns(base + int64(s)*1e9) }
+	return []fixed{
+		{"proj", []ent{{Path: "home.templ", Content: expr, Mtime: t(10)}, {Path: "static.templ", Content: plain, Mtime: t(10)},
+			{Path: "views", Dir: true}, {Path: "views/list.templ", Content: expr, Mtime: t(11)},
+			{Path: "views/admin", Dir: true}, {Path: "views/admin/users", Dir: true}, {Path: "views/admin/users/edit.templ", Content: attr, Mtime: t(12)},
+			{Path: "views/admin/old_templ.go", Content: "// orphan\npackage p\n", Mtime: t(3)},
+			{Path: "vendor", Dir: true}, {Path: "vendor/skipped.templ", Content: expr, Mtime: t(10)}, {Path: "main.go", Content: "package main\n", Mtime: t(2)}}},
+		{"my-app", []ent{{Path: "ui", Dir: true}, {Path: "ui/a.templ", Content: attr, Mtime: t(10)}, {Path: "ui/a_templ.go", Content: "// stale\npackage p\n", Mtime: t(5)},
+			{Path: "ui/b.templ", Content: "package p\n\ntempl T( {\n", Mtime: t(10)}}},
+		{"_site", []ent{{Path: "a.templ", Content: expr, Mtime: t(10)}, {Path: "d1", Dir: true}, {Path: "d1/sub", Dir: true}, {Path: "d1/sub/x.templ", Content: expr, Mtime: t(10)}}},
+	}
+}
+
+// pathContract: the model's filepath.Clean / filepath.Rel (absolute paths) and generator.WithFileName against the real
+// functions: every absolute path of up to four components over {"", ".", "..", "a", "b", "a.b"}, with and without a
+// trailing slash; Rel on pairs of them; WithFileName through the FileName literal of generated code.
+func pathContract(c *core.Ctx) {
+	comps := []string{"", ".", "..", "a", "b", "a.b"}
+	paths := []string{"/"}
+	var gen func(p string, n int)
+	gen = func(p string, n int) {
+		if n == 0 {
+			return
+		}
+		for _, x := range comps {
+			q := p + "/" + x
+			paths = append(paths, q)
+			gen(q, n-1)
+		}
+	}
+	gen("", 4)
+	var reqs []drv.Req
+	for _, p := range paths {
+		reqs = append(reqs, drv.Req{Fn: "clean", Args: [][]byte{[]byte(p)}})
+	}
+	type pair struct{ a, b string }
+	var pairs []pair
+	for i := 0; i < 1500; i++ {
+		a, b := rng.Pick(c.Rng, paths), rng.Pick(c.Rng, paths)
+		if i%3 == 0 { // the second below the first, as in the command
+			b = a + "/" + rng.Pick(c.Rng, []string{"x.templ", "a/x.templ", "a/b/x.templ", "../a"})
+		}
+		pairs = append(pairs, pair{a, b})
+		reqs = append(reqs, drv.Req{Fn: "rel", Args: [][]byte{[]byte(a), []byte(b)}})
+	}
+	names := []string{"a.templ", "views/a.templ", "views/admin/users/edit.templ", "/srv/app/views/a.templ", "/a.templ", "/", "", "../a.templ", "./a.templ", "a//b.templ", "/srv/app/", "Ü/é.templ", "a b/c.templ"}
+	for _, n := range names {
+		reqs = append(reqs, drv.Req{Fn: "wfn", Args: [][]byte{[]byte(n)}})
+	}
+	res := c.Model(reqs)
+	ok, detail := true, ""
+	bad := func(d string) {
+		if ok {
+			ok, detail = false, d
+		}
+	}
+	for i, p := range paths {
+		if want := filepath.Clean(p); len(res[i]) != 1 || string(res[i][0]) != want {
+			bad(fmt.Sprintf("Clean(%q) = %q, model %q", p, want, res[i]))
+		}
+		c.Count("")
+	}
+	for i, pr := range pairs {
+		want, err := filepath.Rel(pr.a, pr.b)
+		if r := res[len(paths)+i]; err != nil || len(r) != 1 || string(r[0]) != want {
+			bad(fmt.Sprintf("Rel(%q, %q) = %q (%v), model %q", pr.a, pr.b, want, err, r))
+		}
+		c.Count("")
+	}
+	tf, err := parser.ParseString("package p\n\ntempl T(s string) {\n\t<p>{ s }</p>\n}\n")
+	for i, n := range names {
+		var b bytes.Buffer
+		if err == nil {
+			_, err = generator.Generate(tf, &b, generator.WithFileName(n))
+		}
+		got := fileNames(b.String())
+		if r := res[len(paths)+len(pairs)+i]; err != nil || len(got) != 1 || len(r) != 1 || string(r[0]) != got[0] {
+			bad(fmt.Sprintf("WithFileName(%q): generated code carries %q (%v), model %q", n, got, err, r))
+		}
+		c.Count("")
+	}
+	c.Hist(fmt.Sprintf("path contract: %d absolute paths cleaned, %d Rel pairs, %d file names", len(paths), len(pairs), len(names)))
+	c.Oblige("contract", "path/filepath as modelled (model/RootPath.v): clean = filepath.Clean and rel = filepath.Rel on absolute paths with empty, \".\" and \"..\" components, with_file_name = generator.WithFileName as seen in the generated code", ok, detail)
 }
 
 type hfixed struct {
